@@ -29,7 +29,6 @@ Definition Inv (src : list row) (r : ovr) : Prop :=
     /\ o_start r = 1 + rows_len (firstn i src) + ls
     /\ o_end r = rows_len (firstn (i + n) src) - le.
 
-Definition pos_rows (rows : list row) : Prop := Forall (fun x => 1 <= row_len x) rows.
 Definition ids_distinct (rows : list row) : Prop :=
   NoDup (map f_id (frags_of rows)) /\ Forall (fun f => 0 <= f_id f) (frags_of rows).
 
